@@ -411,8 +411,8 @@ func (a *parserAnchors) enumPathsAll(start *ssa.BasicBlock, visit func(facts []p
 // flagContradiction: the new facts say the opposite of an earlier fact about the same configuration flag.
 func (a *parserAnchors) flagContradiction(facts, more []pathFact) bool {
 	for _, n := range more {
-		if n.at.kind != atFlag || n.at.fld == nil {
-			continue
+		if n.at.kind != atFlag || n.at.fld == nil || a.flagPath[n.at.fld] == nil {
+			continue // only the mode flags: they are written by the constructor alone (R13.3)
 		}
 		for _, o := range facts {
 			if o.at.kind == atFlag && o.at.fld == n.at.fld && o.at.neg != n.at.neg {
